@@ -410,6 +410,9 @@ func (in *Interp) equal(a, b Value) *term.Term {
 		return term.BoolC(in.isNilValue(a) && in.isNilValue(b))
 	case ReflectV:
 		return term.BoolC(false)
+	case RType:
+		y, ok := b.(RType)
+		return term.BoolC(ok && types.Identical(x.T, y.T))
 	}
 	panic(in.bug("equal: unsupported %T", a))
 }
